@@ -5,7 +5,11 @@ budget handed to the engine (enumeration stops with exhaustive:false, exit 0).""
 VS = {"engine": "valuespace", "needs": ["hz", "enum", "valuespace"], "level": "exploration",
       "gen": {"quick": ["mx"], "thorough": ["mx", "mxall"]}}
 
+WS = {"engine": "wirespace", "needs": ["hz", "enum", "wirespace"], "level": "exploration",
+      "gen": {"quick": ["mx"], "thorough": ["mx", "mxall"]}}
+
 PROPS = {
+    "C03": dict(WS),
     "C01": dict(VS),
     "C02": dict(VS),
     "C04": dict(VS),
